@@ -1,4 +1,8 @@
-"""C04 — input sessions are atomic and readers see one input snapshot (DESIGN §5.4, finding F5)."""
+"""C04 — input sessions are atomic and readers see one input snapshot (DESIGN §5.4; finding F5 fixed in /repo by 7a67ce5).
+
+The harness probes on every run whether input_session() takes the phase lock before it bumps the timestamp
+("fixed") or after ("asis", the order before 7a67ce5); the traces are validated against the model configuration
+with the same order, and PARTIAL is empty exactly when the order is the repaired one."""
 import json, os, sys, hashlib
 sys.path.insert(0, os.path.dirname(os.path.dirname(os.path.abspath(__file__))))
 import vlib
@@ -11,8 +15,8 @@ HARNESS_FEATURES = ""
 PARTIAL = []            # filled in run(): depends on which order the code has (probed on every run)
 PARTIAL_ASIS = [
     "snapshot_consistent, snapshot_stable, session_atomic: proved for the repaired order of input_session() "
-    "(Cfg.lockFirst = true: exclusive phase lock first, then new batch, bump, stage = fixes/F5-lock-before-bump.diff). "
-    "For the order of the code as it is (batch, bump, stage, then wait for the lock) snapshot_consistent is REFUTED: "
+    "(Cfg.lockFirst = true: exclusive phase lock first, then new batch, bump, stage = /repo commit 7a67ce5). THE ORDER PROBE FOUND THE OLD ORDER IN THIS TREE (the fix was reverted?). "
+    "For that order (batch, bump, stage, then wait for the lock) snapshot_consistent is REFUTED: "
     "theorem snapshot_consistent_asis_refuted (kernel-checked witness schedule, forced on the real code by "
     "corpus/C04-F5-window.txt) — finding F5. As is, only phase_exclusive and phase_progress hold.",
 ]
@@ -33,7 +37,9 @@ TRUSTED_EXTRA = [
     "trace positions only (their persistence is C07/C08)",
     "cancellation of input_session()/commit() futures (F12) is not modelled here (C05)",
     "hooks: 21 add-only verif_point!/verif_pause! lines in sync.rs and input_session.rs (labels phase:*); events of reader "
-    "release, query return, set_input return and commit return are emitted by the harness itself around the public API calls",
+    "release, query return, set_input return and commit return are emitted by the harness itself around the public API calls; "
+    "the `req` hooks are emitted before the poll that enqueues the task, so the driver lets a `req` event take effect anywhere "
+    "between its emission and the task's `acq` (other hooks' pauses may sit in between)",
     "multi-thread traces: hook emission is not atomic with the step, so each event has a window (previous event of the same "
     "task, own emission] and the driver searches a linearisation; queue order is unobservable there (unfair lock model)",
 ]
